@@ -756,6 +756,19 @@ func runC15(c *mon.Ctx) {
 				t = s
 			}
 			var used, fresh []glyph.Info
+			if h == 2 {
+				// the same text twice in a row; the first result is the
+				// caller's and was changed in place in between
+				if k.Guard("Layout (re-used layouter)", func() {
+					first := lay.Layout(string(t))
+					for j := range first {
+						first[j].GID = 0xFFFF
+						first[j].Advance += 500
+					}
+				}) {
+					return
+				}
+			}
 			if k.Guard("Layout (re-used layouter)", func() { used = copySeq(lay.Layout(string(t))) }) {
 				return
 			}
